@@ -107,11 +107,12 @@ func (r *suffixedReader) ReadByte() (b byte, err error) {
 			panic("wsflate: internal error: incorrect use of suffixedReader")
 		}
 		b, err = br.ReadByte()
-		if err == io.EOF {
-			err = nil
-			r.r = nil
+		if err != io.EOF {
+			return b, err
 		}
-		return b, err
+		// Source is drained: continue with the suffix instead of
+		// reporting a zero byte that is not part of the stream.
+		r.r = nil
 	}
 	if r.pos >= len(r.suffix) {
 		return 0, io.EOF
